@@ -1,5 +1,5 @@
 (* C07, part 3: the mutual induction, and the theorem on whole chunks:
-     in_fragment b -> classA_ok b -> pos_clean b -> s1_log (first_pass c b) = file_occs b
+     in_fragment b -> pos_clean b -> s1_log (first_pass c b) = file_occs b
    (the first-pass resolver of Model/Usage.v binds every read and every assigned name exactly like the reference
    binder of Spec/LuaUsage.v). *)
 From Coq Require Import List NArith ZArith Bool Lia.
@@ -33,46 +33,46 @@ Proof.
   - intros; apply SSim_nil.
   - intros; apply SSim_nil.
   - intros; apply SSim_nil.
-  - (* EName *) intros n l Hf Hm bp flv g X ens en Heq Hx. cbn [tr_exp fst b_exp].
+  - (* EName *) intros n l Hf bp flv g X ens en Heq Hx. cbn [tr_exp fst b_exp].
     rewrite <- (Heq n).
     + apply SSim_read.
     + apply not_mentioned_not_in. intros x Hxx. exact (Hx x Hxx).
-  - (* EUnop *) intros o x l IH Hf Hm bp flv g X ens en Heq Hx. cbn [tr_exp b_exp].
-    match goal with |- context [tr_exp x None flv ?g1] => pose proof (IH ltac:(assumption) ltac:(assumption) None flv g1 X ens en Heq Hx) as H;
+  - (* EUnop *) intros o x l IH Hf bp flv g X ens en Heq Hx. cbn [tr_exp b_exp].
+    match goal with |- context [tr_exp x None flv ?g1] => pose proof (IH ltac:(assumption) None flv g1 X ens en Heq Hx) as H;
       destruct (tr_exp x None flv g1) as [a g2] end. exact H.
-  - (* EBinop *) intros o a b l IHa IHb Hf Hm bp flv g X ens en Heq Hx.
-    cbn [frag_exp] in Hf. cbn [mlo_exp] in Hm. bsplit Hf. bsplit Hm.
+  - (* EBinop *) intros o a b l IHa IHb Hf bp flv g X ens en Heq Hx.
+    cbn [frag_exp] in Hf. bsplit Hf.
     assert (Hxa : forall x, name_mem x X = true -> mentions_exp x a = false).
     { intros x Hxx. specialize (Hx x Hxx). cbn [mentions_exp] in Hx. bsplit Hx. assumption. }
     assert (Hxb : forall x, name_mem x X = true -> mentions_exp x b = false).
     { intros x Hxx. specialize (Hx x Hxx). cbn [mentions_exp] in Hx. bsplit Hx. assumption. }
     cbn [tr_exp b_exp].
-    match goal with |- context [tr_exp a ?bp1 flv ?g1] => pose proof (IHa ltac:(assumption) ltac:(assumption) bp1 flv g1 X ens en Heq Hxa) as H1;
+    match goal with |- context [tr_exp a ?bp1 flv ?g1] => pose proof (IHa ltac:(assumption) bp1 flv g1 X ens en Heq Hxa) as H1;
       destruct (tr_exp a bp1 flv g1) as [a1 g3] end.
-    match goal with |- context [tr_exp b ?bp1 flv ?g1] => pose proof (IHb ltac:(assumption) ltac:(assumption) bp1 flv g1 X ens en Heq Hxb) as H2;
+    match goal with |- context [tr_exp b ?bp1 flv ?g1] => pose proof (IHb ltac:(assumption) bp1 flv g1 X ens en Heq Hxb) as H2;
       destruct (tr_exp b bp1 flv g1) as [a2 g4] end.
     cbn [fst] in *. eapply SSim_app; eassumption.
-  - (* EParens *) intros x l IH Hf Hm bp flv g X ens en Heq Hx. cbn [tr_exp b_exp]. apply (IH Hf Hm bp flv g X ens en Heq Hx).
+  - (* EParens *) intros x l IH Hf bp flv g X ens en Heq Hx. cbn [tr_exp b_exp]. apply (IH Hf bp flv g X ens en Heq Hx).
   - (* EIndex *) intros p k l _ _ Hf; discriminate.
-  - (* ECall *) intros p nm args l IHp IHa Hf Hm bp flv g X ens en Heq Hx.
+  - (* ECall *) intros p nm args l IHp IHa Hf bp flv g X ens en Heq Hx.
     destruct nm as [nm|]; [discriminate|].
-    cbn [frag_exp] in Hf. cbn [mlo_exp] in Hm. bsplit Hf. bsplit Hm.
+    cbn [frag_exp] in Hf. bsplit Hf.
     assert (Hxp : forall x, name_mem x X = true -> mentions_exp x p = false).
     { intros x Hxx. specialize (Hx x Hxx). cbn [mentions_exp] in Hx. bsplit Hx. assumption. }
     assert (Hxa : forall x, name_mem x X = true -> existsb (mentions_exp x) args = false).
     { intros x Hxx. specialize (Hx x Hxx). cbn [mentions_exp] in Hx. bsplit Hx. assumption. }
     cbn [tr_exp b_exp].
-    pose proof (IHp ltac:(assumption) ltac:(assumption) None flv g X ens en Heq Hxp) as H1.
+    pose proof (IHp ltac:(assumption) None flv g X ens en Heq Hxp) as H1.
     destruct (tr_exp p None flv g) as [a1 g1].
-    pose proof (thread_exps flv X ens en args g1 IHa ltac:(assumption) ltac:(assumption) Heq Hxa) as H2.
+    pose proof (thread_exps flv X ens en args g1 IHa ltac:(assumption) Heq Hxa) as H2.
     destruct (thread (fun x g0 => tr_exp x None flv g0) args g1) as [a2 g2].
     cbn [fst] in *. eapply SSim_app; eassumption.
   - (* ETable *) intros ks vs l _ _ Hf; discriminate.
-  - (* EFunc *) intros c f ps pl b l va co IHb Hf Hm bp flv g X ens en Heq Hx.
+  - (* EFunc *) intros c f ps pl b l va co IHb Hf bp flv g X ens en Heq Hx.
     destruct co; [discriminate|].
-    cbn [frag_exp] in Hf. cbn [mlo_exp] in Hm. bsplit Hf.
+    cbn [frag_exp] in Hf. bsplit Hf.
     cbn [tr_exp b_exp].
-    destruct (IHb ltac:(assumption) ltac:(assumption) (flv + 1) 0 g X (rev (combine ps pl)) ens (bind_names ps pl en)) as [seg' [H1 _]].
+    destruct (IHb ltac:(assumption) (flv + 1) 0 g X (rev (combine ps pl)) ens (bind_names ps pl en)) as [seg' [H1 _]].
     { cbn [concat]. unfold bind_names. apply EQX_app. exact Heq. }
     { intros x Hxx. specialize (Hx x Hxx). cbn [mentions_exp] in Hx. bsplit Hx. assumption. }
     destruct (tr_block b (flv + 1) 0 g) as [a g1]. cbn [fst] in *.
@@ -82,54 +82,54 @@ Proof.
     + eapply SSim_eq; [reflexivity| |eapply SSim_app; [apply (SSim_adds ps pl [] ens)|]].
       * reflexivity.
       * rewrite app_nil_r. exact H1.
-  - (* SBreak *) intros Hf Hm flv slv g X seg rest en Heq Hx. exists seg. split; [apply SSim_nil|exact Heq].
+  - (* SBreak *) intros Hf flv slv g X seg rest en Heq Hx. exists seg. split; [apply SSim_nil|exact Heq].
   - intros n l Hf; discriminate.
   - intros n l Hf; discriminate.
-  - (* SDo *) intros b l IHb Hf Hm flv slv g X seg rest en Heq Hx. cbn [frag_stat] in Hf. cbn [mlo_stat] in Hm.
+  - (* SDo *) intros b l IHb Hf flv slv g X seg rest en Heq Hx. cbn [frag_stat] in Hf. 
     cbn [tr_stat b_stat].
-    destruct (IHb ltac:(assumption) ltac:(assumption) flv (slv + 1) g X [] (seg :: rest) en Heq) as [seg' [H1 _]].
+    destruct (IHb ltac:(assumption) flv (slv + 1) g X [] (seg :: rest) en Heq) as [seg' [H1 _]].
     { intros x Hxx. exact (Hx x Hxx). }
     destruct (tr_block b flv (slv + 1) g) as [a g1]. cbn [fst snd] in *.
     exists seg. split; [|exact Heq]. eapply SSim_scope. exact H1.
-  - (* SCall *) intros e IHe Hf Hm flv slv g X seg rest en Heq Hx. cbn [frag_stat] in Hf. cbn [mlo_stat] in Hm.
+  - (* SCall *) intros e IHe Hf flv slv g X seg rest en Heq Hx. cbn [frag_stat] in Hf. 
     cbn [tr_stat b_stat fst snd]. exists seg. split; [|exact Heq].
-    apply (IHe ltac:(assumption) ltac:(assumption) None flv g X (seg :: rest) en Heq). intros x Hxx. exact (Hx x Hxx).
-  - (* SIf *) intros es bs l IHe IHb Hf Hm flv slv g X seg rest en Heq Hx.
-    cbn [frag_stat] in Hf. cbn [mlo_stat] in Hm. bsplit Hf. bsplit Hm.
+    apply (IHe ltac:(assumption) None flv g X (seg :: rest) en Heq). intros x Hxx. exact (Hx x Hxx).
+  - (* SIf *) intros es bs l IHe IHb Hf flv slv g X seg rest en Heq Hx.
+    cbn [frag_stat] in Hf. bsplit Hf.
     cbn [tr_stat b_stat fst snd]. exists seg. split; [|exact Heq].
     apply (alt_thread_sim flv slv X (seg :: rest) en es bs g); auto.
     intros x Hxx. specialize (Hx x Hxx). cbn [mentions_stat] in Hx. bsplit Hx. auto.
-  - (* SWhile *) intros e b l IHe IHb Hf Hm flv slv g X seg rest en Heq Hx.
-    cbn [frag_stat] in Hf. cbn [mlo_stat] in Hm. bsplit Hf. bsplit Hm.
+  - (* SWhile *) intros e b l IHe IHb Hf flv slv g X seg rest en Heq Hx.
+    cbn [frag_stat] in Hf. bsplit Hf.
     assert (Hxe : forall x, name_mem x X = true -> mentions_exp x e = false).
     { intros x Hxx. specialize (Hx x Hxx). cbn [mentions_stat] in Hx. bsplit Hx. assumption. }
     assert (Hxb : forall x, name_mem x X = true -> mentions_block x b = false).
     { intros x Hxx. specialize (Hx x Hxx). cbn [mentions_stat] in Hx. bsplit Hx. assumption. }
     cbn [tr_stat b_stat].
-    pose proof (IHe ltac:(assumption) ltac:(assumption) None flv g X (seg :: rest) en Heq Hxe) as H1.
+    pose proof (IHe ltac:(assumption) None flv g X (seg :: rest) en Heq Hxe) as H1.
     destruct (tr_exp e None flv g) as [a1 g1].
-    destruct (IHb ltac:(assumption) ltac:(assumption) flv (slv + 1) g1 X [] (seg :: rest) en Heq Hxb) as [seg' [H2 _]].
+    destruct (IHb ltac:(assumption) flv (slv + 1) g1 X [] (seg :: rest) en Heq Hxb) as [seg' [H2 _]].
     destruct (tr_block b flv (slv + 1) g1) as [a2 g2]. cbn [fst snd] in *.
     exists seg. split; [|exact Heq]. eapply SSim_app; [exact H1|]. eapply SSim_scope. exact H2.
-  - (* SRepeat *) intros b e l IHb IHe Hf Hm flv slv g X seg rest en Heq Hx.
-    cbn [frag_stat] in Hf. cbn [mlo_stat] in Hm. bsplit Hf. bsplit Hm.
+  - (* SRepeat *) intros b e l IHb IHe Hf flv slv g X seg rest en Heq Hx.
+    cbn [frag_stat] in Hf. bsplit Hf.
     assert (Hxb : forall x, name_mem x X = true -> mentions_block x b = false).
     { intros x Hxx. specialize (Hx x Hxx). cbn [mentions_stat] in Hx. bsplit Hx. assumption. }
     assert (Hxe : forall x, name_mem x X = true -> mentions_exp x e = false).
     { intros x Hxx. specialize (Hx x Hxx). cbn [mentions_stat] in Hx. bsplit Hx. assumption. }
     cbn [tr_stat b_stat].
-    destruct (IHb ltac:(assumption) ltac:(assumption) flv (slv + 1) g X [] (seg :: rest) en Heq Hxb) as [seg' [H1 E1]].
+    destruct (IHb ltac:(assumption) flv (slv + 1) g X [] (seg :: rest) en Heq Hxb) as [seg' [H1 E1]].
     destruct (tr_block b flv (slv + 1) g) as [a1 g1]. destruct (b_block en flv (slv + 1) b) as [o en1].
     cbn [fst snd] in *.
-    pose proof (IHe ltac:(assumption) ltac:(assumption) None flv g1 X (seg' :: seg :: rest) en1 E1 Hxe) as H2.
+    pose proof (IHe ltac:(assumption) None flv g1 X (seg' :: seg :: rest) en1 E1 Hxe) as H2.
     destruct (tr_exp e None flv g1) as [a2 g2]. cbn [fst snd] in *.
     exists seg. split; [|exact Heq].
     eapply SSim_eq; [| |apply (SSim_scope (a1 ++ a2) (seg :: rest) seg' (o ++ b_exp en1 flv e))].
     + rewrite <- app_assoc. reflexivity.
     + reflexivity.
     + eapply SSim_app; eassumption.
-  - (* SForNum *) intros n vl e1 e2 e3 b l IH1 IH2 IH3 IHb Hf Hm flv slv g X seg rest en Heq Hx.
-    cbn [frag_stat] in Hf. cbn [mlo_stat] in Hm. bsplit Hf. bsplit Hm.
+  - (* SForNum *) intros n vl e1 e2 e3 b l IH1 IH2 IH3 IHb Hf flv slv g X seg rest en Heq Hx.
+    cbn [frag_stat] in Hf. bsplit Hf.
     assert (Hx1 : forall x, name_mem x X = true -> mentions_exp x e1 = false).
     { intros x Hxx. specialize (Hx x Hxx). cbn [mentions_stat] in Hx. bsplit Hx. assumption. }
     assert (Hx2 : forall x, name_mem x X = true -> mentions_exp x e2 = false).
@@ -139,13 +139,13 @@ Proof.
     assert (Hxb : forall x, name_mem x X = true -> mentions_block x b = false).
     { intros x Hxx. specialize (Hx x Hxx). cbn [mentions_stat] in Hx. bsplit Hx. assumption. }
     cbn [tr_stat b_stat].
-    pose proof (IH1 ltac:(assumption) ltac:(assumption) None flv g X ([] :: seg :: rest) en Heq Hx1) as A1.
+    pose proof (IH1 ltac:(assumption) None flv g X ([] :: seg :: rest) en Heq Hx1) as A1.
     destruct (tr_exp e1 None flv g) as [a1 g1].
-    pose proof (IH2 ltac:(assumption) ltac:(assumption) None flv g1 X ([] :: seg :: rest) en Heq Hx2) as A2.
+    pose proof (IH2 ltac:(assumption) None flv g1 X ([] :: seg :: rest) en Heq Hx2) as A2.
     destruct (tr_exp e2 None flv g1) as [a2 g2].
-    pose proof (IH3 ltac:(assumption) ltac:(assumption) None flv g2 X ([] :: seg :: rest) en Heq Hx3) as A3.
+    pose proof (IH3 ltac:(assumption) None flv g2 X ([] :: seg :: rest) en Heq Hx3) as A3.
     destruct (tr_exp e3 None flv g2) as [a3 g3].
-    destruct (IHb ltac:(assumption) ltac:(assumption) flv (slv + 1) g3 X [(n, vl)] (seg :: rest) ((n, vl) :: en)) as [seg' [A4 _]].
+    destruct (IHb ltac:(assumption) flv (slv + 1) g3 X [(n, vl)] (seg :: rest) ((n, vl) :: en)) as [seg' [A4 _]].
     { cbn [concat app]. apply EQX_cons. exact Heq. }
     { exact Hxb. }
     destruct (tr_block b flv (slv + 1) g3) as [a4 g4]. cbn [fst snd] in *.
@@ -158,16 +158,16 @@ Proof.
     + eapply SSim_app; [exact A1|]. eapply SSim_app; [exact A2|]. eapply SSim_app; [exact A3|].
       eapply SSim_eq; [reflexivity| |eapply SSim_cons; [apply (SSim_add (param_var n vl) [] (seg :: rest))|exact A4]].
       reflexivity.
-  - (* SForIn *) intros ns ls es b l IHe IHb Hf Hm flv slv g X seg rest en Heq Hx.
-    cbn [frag_stat] in Hf. cbn [mlo_stat] in Hm. bsplit Hf. bsplit Hm.
+  - (* SForIn *) intros ns ls es b l IHe IHb Hf flv slv g X seg rest en Heq Hx.
+    cbn [frag_stat] in Hf. bsplit Hf.
     assert (Hxe : forall x, name_mem x X = true -> existsb (mentions_exp x) es = false).
     { intros x Hxx. specialize (Hx x Hxx). cbn [mentions_stat] in Hx. bsplit Hx. assumption. }
     assert (Hxb : forall x, name_mem x X = true -> mentions_block x b = false).
     { intros x Hxx. specialize (Hx x Hxx). cbn [mentions_stat] in Hx. bsplit Hx. assumption. }
     cbn [tr_stat b_stat].
-    pose proof (thread_exps flv X ([] :: seg :: rest) en es g IHe ltac:(assumption) ltac:(assumption) Heq Hxe) as A1.
+    pose proof (thread_exps flv X ([] :: seg :: rest) en es g IHe ltac:(assumption) Heq Hxe) as A1.
     destruct (thread (fun x g0 => tr_exp x None flv g0) es g) as [a1 g1].
-    destruct (IHb ltac:(assumption) ltac:(assumption) flv (slv + 1) g1 X (rev (combine ns ls)) (seg :: rest) (bind_names ns ls en)) as [seg' [A2 _]].
+    destruct (IHb ltac:(assumption) flv (slv + 1) g1 X (rev (combine ns ls)) (seg :: rest) (bind_names ns ls en)) as [seg' [A2 _]].
     { cbn [concat]. unfold bind_names. apply EQX_app. exact Heq. }
     { exact Hxb. }
     destruct (tr_block b flv (slv + 1) g1) as [a2 g2]. cbn [fst snd] in *.
@@ -180,11 +180,11 @@ Proof.
       eapply SSim_eq; [reflexivity| |eapply SSim_app; [apply (SSim_adds ns ls [] (seg :: rest))|]].
       * reflexivity.
       * rewrite app_nil_r. exact A2.
-  - (* SAssign *) intros vars es l IHv IHe Hf Hm flv slv g X seg rest en Heq Hx.
+  - (* SAssign *) intros vars es l IHv IHe Hf flv slv g X seg rest en Heq Hx.
     destruct vars as [|v vars']; try discriminate Hf. destruct v; try discriminate Hf.
     destruct vars' as [|v2 vars']; try discriminate Hf.
     destruct es as [|e es']; try discriminate Hf. destruct es' as [|e2 es']; try discriminate Hf.
-    cbn [frag_stat] in Hf. cbn [mlo_stat existsb] in Hm. bsplit Hf. bsplit Hm.
+    cbn [frag_stat] in Hf. bsplit Hf.
     pose proof (Forall_inv IHe) as He.
     assert (Hxe : forall x, name_mem x X = true -> mentions_exp x e = false).
     { intros x Hxx. specialize (Hx x Hxx). cbn [mentions_stat existsb] in Hx. bsplit Hx. assumption. }
@@ -194,26 +194,24 @@ Proof.
     exists seg. split; [|exact Heq].
     cbn [tr_stat b_stat map assign_thread tl thread fst snd flat_map hd_error].
     match goal with |- context [tr_exp e None flv ?g0] =>
-      pose proof (He ltac:(assumption) ltac:(assumption) None flv g0 X (seg :: rest) en Heq Hxe) as H1; destruct (tr_exp e None flv g0) as [a1 g1] end.
+      pose proof (He ltac:(assumption) None flv g0 X (seg :: rest) en Heq Hxe) as H1; destruct (tr_exp e None flv g0) as [a1 g1] end.
     cbn [fst snd] in *. rewrite !app_nil_r.
     eapply SSim_app; [exact H1|]. rewrite <- (Heq n Hn). apply SSim_write.
-  - (* SLocal *) intros ns ls ats es l IHe Hf Hm flv slv g X seg rest en Heq Hx.
-    cbn [frag_stat] in Hf. cbn [mlo_stat] in Hm. bsplit Hf. bsplit Hm.
+  - (* SLocal *) intros ns ls ats es l IHe Hf flv slv g X seg rest en Heq Hx.
+    cbn [frag_stat] in Hf. bsplit Hf.
     repeat match goal with
            | H : (_ =? _)%nat = true |- _ => apply Nat.eqb_eq in H
            | H : (_ <=? _)%nat = true |- _ => apply Nat.leb_le in H
            end.
-    rewrite tr_stat_local. cbn [b_stat fst snd].
+    cbn [b_stat fst snd].
     exists (rev (combine ns ls) ++ seg). split.
-    + pose proof (local_go_sim flv rest en es ns ls ats g X [] seg ltac:(assumption) ltac:(assumption) ltac:(assumption) IHe ltac:(assumption) ltac:(assumption) ltac:(assumption) Heq) as H.
-      cbn [app] in H. apply H.
-      * intros m l0 [].
-      * intros x Hxx. specialize (Hx x Hxx). cbn [mentions_stat] in Hx. bsplit Hx. assumption.
+    + apply (local_go_sim flv slv l rest en es ns ls ats g X seg); try assumption.
+      intros x Hxx. specialize (Hx x Hxx). cbn [mentions_stat] in Hx. bsplit Hx. assumption.
     + cbn [concat]. unfold bind_names. rewrite <- app_assoc. apply EQX_app. exact Heq.
-  - (* SLocalFunc *) intros n nl f l IHf Hf Hm flv slv g X seg rest en Heq Hx.
-    cbn [frag_stat] in Hf. cbn [mlo_stat] in Hm. bsplit Hf.
+  - (* SLocalFunc *) intros n nl f l IHf Hf flv slv g X seg rest en Heq Hx.
+    cbn [frag_stat] in Hf. bsplit Hf.
     cbn [tr_stat b_stat].
-    pose proof (IHf ltac:(assumption) ltac:(assumption) None flv g X (((n, nl) :: seg) :: rest) ((n, nl) :: en)) as H1.
+    pose proof (IHf ltac:(assumption) None flv g X (((n, nl) :: seg) :: rest) ((n, nl) :: en)) as H1.
     destruct (tr_exp f None flv g) as [a g1]. cbn [fst snd] in *.
     exists ((n, nl) :: seg). split.
     + eapply SSim_eq; [reflexivity| |eapply SSim_cons; [apply SSim_add|apply H1]].
@@ -221,12 +219,12 @@ Proof.
       * cbn [concat app]. apply EQX_cons. exact Heq.
       * intros x Hxx. specialize (Hx x Hxx). cbn [mentions_stat] in Hx. bsplit Hx. assumption.
     + cbn [concat app]. apply EQX_cons. exact Heq.
-  - (* Block *) intros ss ret l IHs IHr Hf Hm flv slv g X seg rest en Heq Hx.
-    cbn [frag_block] in Hf. cbn [mlo_block] in Hm. bsplit Hf. bsplit Hm.
+  - (* Block *) intros ss ret l IHs IHr Hf flv slv g X seg rest en Heq Hx.
+    cbn [frag_block] in Hf. bsplit Hf.
     assert (Hxs : forall x, name_mem x X = true -> existsb (mentions_stat x) ss = false).
     { intros x Hxx. specialize (Hx x Hxx). cbn [mentions_block] in Hx. bsplit Hx. assumption. }
     cbn [tr_block b_block].
-    destruct (thread_stats flv slv X rest ss g seg en IHs ltac:(assumption) ltac:(assumption) Heq Hxs) as [seg' [A1 E1]].
+    destruct (thread_stats flv slv X rest ss g seg en IHs ltac:(assumption) Heq Hxs) as [seg' [A1 E1]].
     destruct (thread (fun s g0 => tr_stat s flv slv g0) ss g) as [a1 g1].
     destruct (thread (fun s en0 => b_stat en0 flv slv s) ss en) as [o en1]. cbn [fst snd] in *.
     exists seg'. split; [|exact E1].
@@ -234,7 +232,7 @@ Proof.
     + cbn [tb_ret] in IHr.
       assert (Hxr : forall x, name_mem x X = true -> existsb (mentions_exp x) es = false).
       { intros x Hxx. specialize (Hx x Hxx). cbn [mentions_block] in Hx. bsplit Hx. assumption. }
-      pose proof (thread_exps flv X (seg' :: rest) en1 es g1 IHr ltac:(assumption) ltac:(assumption) E1 Hxr) as A2.
+      pose proof (thread_exps flv X (seg' :: rest) en1 es g1 IHr ltac:(assumption) E1 Hxr) as A2.
       destruct (thread (fun x g0 => tr_exp x None flv g0) es g1) as [a2 g2]. cbn [fst] in *.
       eapply SSim_app; eassumption.
     + cbn [fst]. rewrite !app_nil_r. exact A1.
@@ -252,14 +250,13 @@ Proof.
 Qed.
 
 Theorem usage_bindings_agree c b :
-  in_fragment b = true -> classA_ok b = true -> pos_clean b = true ->
+  in_fragment b = true -> pos_clean b = true ->
   s1_log (first_pass c b) = file_occs b.
 Proof.
-  intros Hf Ha Hp. unfold first_pass, run1.
+  intros Hf Hp. unfold first_pass, run1.
   destruct (run1_fold c (trace b) (mkSt1 [] [] [] [])) as [_ H]. rewrite H. cbn [s1_log s1_stack app].
   destruct usage_sim_all as [_ [_ Hb]].
-  unfold classA_ok, multi_local_order in Ha. apply negb_true_iff in Ha.
-  destruct (Hb b Hf Ha 0 0 ign0 [] [] [] []) as [seg' [H1 _]].
+  destruct (Hb b Hf 0 0 ign0 [] [] [] []) as [seg' [H1 _]].
   - intros n _. reflexivity.
   - intros x Hx. discriminate.
   - unfold trace, file_occs. unfold pos_clean, trace in Hp. revert Hp H1.
